@@ -534,6 +534,12 @@ xds_decoder(vbi_decoder *vbi, int _class, int type,
 			break;
 
 		case 2:		/* network call letters */
+			/* Like the network name the call letters count
+			   only when received twice in a row, a single
+			   deviating packet must not change the network. */
+			if (xds_strfu(vbi->cc.call_rx, buffer, length))
+				break;
+
 			if (xds_strfu(n->call, buffer, length)) {
 				if (n->cycle != 1) {
 					n->name[0] = 0;
@@ -1499,6 +1505,8 @@ vbi_caption_channel_switched(vbi_decoder *vbi)
 
 	cc->info_cycle[0] = 0;
 	cc->info_cycle[1] = 0;
+
+	cc->call_rx[0] = 0;
 
 	vbi_caption_desync(vbi);
 
